@@ -424,7 +424,9 @@ func firstLetterToBox(context *layoutContext, box Box, skipStack tree.ResumeStac
 					letterBox := bo.NewInlineBox(firstLetterStyle, textBox.Element, "first-letter", nil)
 					textBox = bo.NewTextBox(letterStyle, textBox.Element, "first-letter", []rune(firstLetter))
 					letterBox.Children = []Box{textBox}
-					textBox.Children = append([]Box{letterBox}, textBox.Children...)
+					// the letter box becomes the first child of the box being processed
+					// (WeasyPrint: box.children = (letter_box,) + tuple(box.children))
+					box.Box().Children = append([]Box{letterBox}, box.Box().Children...)
 				} else {
 					letterBox := bo.NewBlockBox(firstLetterStyle, textBox.Element, "first-letter", nil)
 					letterBox.FirstLetterStyle = nil
